@@ -142,6 +142,7 @@ class Tree:
         self.nodes = []
         self.leaf_nodes = []  # leaf id -> component Node
         self.by_level = {}
+        self.dim0 = {}  # as-built cold dimensions touched by geometry steps
 
     def add(self, level, obj, parent=None):
         n = Node(level, obj, parent)
@@ -518,7 +519,8 @@ def _structure_step(out, tree, op, step, snap, recheck):
                           lambda: "%s: height %r -> %r conserving %s: %s held %r g, now %r g" % (where, h0, h1, names, n, pre.mass(n), post.mass(n)))
             if set(names) >= {n for n in present if pre.atoms[n] != 0.0}:
                 m0, m1 = pre.total_mass(), b.getMass()
-                out.check(_close(m1, m0, max(pre.total_mass_abs(), floor)), "edit/setHeight-mass-not-conserved",
+                # (every listed nuclide gets TRACE_NUMBER_DENSITY added: an all-trace inventory has no relative precision)
+                out.check(_close(m1, m0, max(pre.total_mass_abs(), floor * 500.0 * len(names))), "edit/setHeight-mass-not-conserved",
                           lambda: "%s: height %r -> %r conserving every nuclide: block mass %r -> %r g" % (where, h0, h1, m0, m1))
         n_keep = False
         vol_same = False
@@ -543,9 +545,11 @@ def _structure_step(out, tree, op, step, snap, recheck):
             out.label("skip:setDim-no-free-outer-dimension")
             return snap
         outer = c is b._pitchDefiningComponent[0]
-        f = 1.0 + 0.03 * op["f"] if outer else 0.96 + 0.06 * op["f"]
+        f = 1.0 + 0.03 * op["f"] if outer else 0.97 + 0.06 * op["f"]
         out.label("op:setDim@component", "geom:outermost" if outer else "geom:inner")
-        c.setDimension(key, round(c.getDimension(key, cold=True) * f, 6))
+        # (always relative to the as-built size, so that repeated steps cannot close a duct or over-fill the cell)
+        base = tree.dim0.setdefault((id(c), key), c.getDimension(key, cold=True))
+        c.setDimension(key, round(base * f, 6))
         post_snap = _snapshot(tree)
         vol_same = False
     else:  # setPitch: every block of the assembly (they share one lattice cell); a lone block otherwise
@@ -554,7 +558,7 @@ def _structure_step(out, tree, op, step, snap, recheck):
             return snap
         targets = bn.parent.children if bn.parent is not None and bn.parent.level == "assembly" else [bn]
         pc = b._pitchDefiningComponent[0]
-        val = round(pc.getDimension("op", cold=True) * (1.0 + 0.03 * op["f"]), 6)
+        val = round(tree.dim0.setdefault((id(pc), "op"), pc.getDimension("op", cold=True)) * (1.0 + 0.03 * op["f"]), 6)
         out.label("op:setPitch@block", "geom:outermost")
         for t in targets:
             t.obj.setPitch(val)
